@@ -194,6 +194,12 @@ def run_job(job):
                         ev["rtype"] = mem.invocation_metadata.result_type.name
                 except Exception as e:
                     ev["rtype"] = "error:" + type(e).__name__
+            elif op == "ForgetAll":      # forget_all(): every call of the function, this one included - the monitor sees a Forget
+                ev = {"op": "Forget", "exc": ""}
+                try:
+                    verif_val.vf.forget_all()
+                except Exception as e:
+                    ev["exc"] = type(e).__name__
             else:
                 ev = {"op": "Forget", "exc": ""}
                 try:
